@@ -191,7 +191,7 @@ def replay(ctx, v):
     w = v["witness"]
     if "graph" in w:
         check_graph(ctx, WG.from_desc(w["graph"]), "replay", ("replay",))
-    elif "template_rid" in w or "rsmi" in w:
+    elif "template_rid" in w or "rsmi" in w or "template" in w:
         from checks import reactor_common as RC
         RC.replay_pruning(ctx, w)
     else:
